@@ -107,10 +107,10 @@ fn read_color(slot: &Node) -> Option<String> {
 
 fn format_hex(raw: &str) -> String {
     let trimmed = raw.trim_start_matches('#');
-    let rgb = if trimmed.len() == 8 {
-        &trimmed[2..]
-    } else {
-        trimmed
+    // ARGB drops the alpha byte; `get` also covers values that are not plain hex digits
+    let rgb = match trimmed.get(2..) {
+        Some(rest) if trimmed.len() == 8 => rest,
+        _ => trimmed,
     };
     format!("#{}", rgb.to_ascii_uppercase())
 }
